@@ -103,6 +103,9 @@ def num_eq_int_float(i, f):
                   z3.fpToReal(f) == z3.ToReal(i))
 
 
+ALL_ENVS = []
+
+
 class Env:
     PURE_EFFECTS = ('CLOCK', 'LOOP_CUT', 'SLEEP')
 
@@ -113,6 +116,7 @@ class Env:
         self.obj_methods = {}    # env class name -> {method: impl(interp, obj, args, kwargs)}
         self.axioms = []
         self.trusted = set()     # names of environment contracts actually used
+        ALL_ENVS.append(self)
         self._setup_builtins()
 
     def use(self, name):
@@ -982,6 +986,12 @@ class Env:
         if isinstance(idx, slice):
             if idx.step is not None:
                 raise Unsupported('slice step')
+            kl = it.st.ghost.get('known_len', {}).get(t.get_id())
+            if kl is not None and all(x is None or isinstance(x, int) for x in (idx.start, idx.stop)):
+                lo, hi, _ = slice(idx.start, idx.stop).indices(kl)
+                r = z3.SubSeq(t, z3.IntVal(lo), z3.IntVal(max(hi - lo, 0)))
+                it.st.ghost.setdefault('known_len', {})[r.get_id()] = max(hi - lo, 0)
+                return SV(ty, r)
 
             def norm(x, default):
                 if x is None:
@@ -1105,7 +1115,10 @@ class Env:
             return NotImplemented
         m = self.obj_methods.get(cls, {}).get(name)
         if m is not None:
-            return EnvFunc(cls + '.' + name, lambda it2, a, k, m=m, o=o: m(it2, o, a, k))
+            e = EnvFunc(cls + '.' + name, lambda it2, a, k, m=m, o=o: m(it2, o, a, k))
+            if cls == 'stream' and name == 'read':
+                e.stream_source = o
+            return e
         return NotImplemented
 
     def obj_setattr(self, it, o, name, val):
